@@ -13,9 +13,9 @@ only by a CAS that re-checks that `next` is still the successor of `prev`; the f
 `prev.key < key < next.key` were established by comparisons with immutable keys; nodes are
 never unlinked.  Hence the chain stays strictly sorted.
 
-What this does **not** prove (see props/C22.json `partial`): linearizability of `Get`/iterator
-results against the sorted-map specification, absence of assertion failures (`Pc.panic`) under
-contention, and progress.
+Absence of assertion failures (`Pc.panic` unreachable) and which value wins a race are in
+`C22ConcNP.lean`.  Not proved (see props/C22.json `partial`): linearizability of
+`Get`/iterator results against the sorted-map specification, and progress.
 -/
 namespace Badger
 namespace SkipConc
